@@ -833,6 +833,13 @@ def oracle_C10(lhs, o, t, om=None):
     # (for which this is proved) names the call and the number of reads at which that happens; an implementation that answers
     # that call with something else after reading further has asked for more input on a complete, malformed message.
     mo, io = om.get("outs", []), o.get("outs", [])
+    # the end of the stream and the exhaustion of the buffer are different outcomes: the model (whose window arithmetic is the
+    # subject of `C10_recv_never_faults` / `C07_receiver_delivers`) says which one a call meets
+    for j, (x, y) in enumerate(zip(mo, io)):
+        if x != y:
+            if {x, y} == {"oom", "closed"}:
+                return f"call {j + 1}: recv answered {y} where the stream / buffer state is {x} ({'the buffer was full, the stream had not ended' if x == 'oom' else 'the stream had ended, the buffer had room'})"
+            break
     for j, x in enumerate(mo):
         if x.startswith("parse:") and "insufficientSize" not in x:
             if mo[:j] == io[:j] and (len(io) <= j or not io[j].startswith("parse:")):
